@@ -4,7 +4,14 @@
 //! notification sequences, one notification at a time, run to idle on a paused current-thread runtime.
 //! Every lifecycle callback is logged with its arguments.
 //!
-//! ops:  new <client|hosted> <map|value> <ews> <tou> | linked | synced | unlinked | upd k v | rem k | clr |
+//! Hosted downlinks are opened either directly (`Open*DownlinkAction::new`, `path=0`) or THROUGH THE PUBLIC BUILDERS
+//! (`HandlerContext::{map,value,event}_downlink_builder`, `path=1..6`: stateless, setters reversed, `with_state` first,
+//! `with_state` first + reversed, all stateless setters then `with_state`, mixed); the configured flags and every handler
+//! must be in effect whatever the path. Values are strings on the wire: the decimal number, padded to 6–18 KB for a
+//! quarter of the values when the downlink was created with `big` (then the byte channels are 512 bytes, so that an event
+//! body spans many reads); they are rendered as the number (`corrupt` if the padding is damaged).
+//!
+//! ops:  new <client|hosted> <map|value|event> <ews> <tou> [path=N] [big] | linked | synced | unlinked | upd k v | rem k | clr |
 //!       take n | drop n | set v | wupd k v | wrem k | wclr | wset v | bad | eof | reconnect |
 //!       drop-handle (the write handle — client: the `mpsc::Sender`, hosted: the `*DownlinkHandle` — is dropped: the
 //!       client task falls back to its `Mode::Read` loop) | close-out (client: the reader of the task's output channel is
@@ -20,13 +27,15 @@ use std::time::Duration;
 use bytes::{Bytes, BytesMut};
 use futures::{FutureExt, SinkExt};
 use svh::{parse_args, Mode, Rng, Trace};
+use swimos_agent::agent_lifecycle::HandlerContext;
 use swimos_agent::agent_model::downlink::{
-    BoxDownlinkChannel, BoxDownlinkChannelFactory, DownlinkChannelError, DownlinkChannelEvent, MapDownlinkHandle,
-    OpenMapDownlinkAction, OpenValueDownlinkAction, ValueDownlinkHandle,
+    BoxDownlinkChannel, BoxDownlinkChannelFactory, DownlinkChannelError, DownlinkChannelEvent, EventDownlinkHandle,
+    MapDownlinkHandle, OpenEventDownlinkAction, OpenMapDownlinkAction, OpenValueDownlinkAction, ValueDownlinkHandle,
 };
+use swimos_agent::agent_model::AgentDescription;
 use swimos_agent::config::{MapDownlinkConfig, SimpleDownlinkConfig};
 use swimos_agent::downlink_lifecycle::{
-    OnDownlinkClear, OnDownlinkEvent, OnDownlinkRemove, OnDownlinkSet, OnDownlinkUpdate, OnFailed, OnLinked,
+    OnConsumeEvent, OnDownlinkClear, OnDownlinkEvent, OnDownlinkRemove, OnDownlinkSet, OnDownlinkUpdate, OnFailed, OnLinked,
     OnSynced, OnUnlinked,
 };
 use swimos_agent::event_handler::{
@@ -58,16 +67,54 @@ const BUF: NonZeroUsize = match NonZeroUsize::new(4096) {
 
 // ------------------------------------------------------------------------------------------------ rendering
 
-fn show_map<'a, I: IntoIterator<Item = (&'a i32, &'a i32)>>(it: I) -> String {
-    let mut v: Vec<(i32, i32)> = it.into_iter().map(|(k, v)| (*k, *v)).collect();
+/// The value type of every downlink in this harness (the model's `Int`, possibly padded on the wire).
+type V = String;
+const SMALL_CHANNEL: NonZeroUsize = match NonZeroUsize::new(512) {
+    Some(n) => n,
+    None => unreachable!(),
+};
+
+fn pad_len(v: i32) -> usize {
+    if v.rem_euclid(4) == 1 {
+        5000 + (v.rem_euclid(16) as usize) * 1000
+    } else {
+        0
+    }
+}
+
+/// wire form of the model value `v`
+fn wire(v: i32, big: bool) -> V {
+    let n = if big { pad_len(v) } else { 0 };
+    if n == 0 {
+        v.to_string()
+    } else {
+        format!("{}_{}", v, "x".repeat(n))
+    }
+}
+
+/// the model value of a wire value (`corrupt` unless it is exactly a `wire(..)` image)
+fn show_val(s: &str) -> String {
+    let (num, pad) = match s.split_once('_') {
+        Some((a, b)) => (a, Some(b)),
+        None => (s, None),
+    };
+    match (num.parse::<i32>(), pad) {
+        (Ok(v), None) if v.to_string() == num => num.to_string(),
+        (Ok(v), Some(p)) if v.to_string() == num && p.len() == pad_len(v) && p.bytes().all(|b| b == b'x') => num.to_string(),
+        _ => "corrupt".to_string(),
+    }
+}
+
+fn show_map<'a, I: IntoIterator<Item = (&'a i32, &'a V)>>(it: I) -> String {
+    let mut v: Vec<(i32, String)> = it.into_iter().map(|(k, v)| (*k, show_val(v))).collect();
     v.sort();
     let body: Vec<String> = v.iter().map(|(k, v)| format!("{}:{}", k, v)).collect();
     format!("{{{}}}", body.join(","))
 }
 
-fn show_opt(v: Option<&i32>) -> String {
+fn show_opt(v: Option<&V>) -> String {
     match v {
-        Some(v) => v.to_string(),
+        Some(v) => show_val(v),
         None => "none".to_string(),
     }
 }
@@ -103,17 +150,28 @@ enum Note {
     Bad,
 }
 
-fn encode_note(n: &Note) -> DownlinkNotification<Bytes> {
+fn wire_msg(m: &MapMessage<i32, i32>, big: bool) -> MapMessage<i32, V> {
+    match m {
+        MapMessage::Update { key, value } => MapMessage::Update { key: *key, value: wire(*value, big) },
+        MapMessage::Remove { key } => MapMessage::Remove { key: *key },
+        MapMessage::Clear => MapMessage::Clear,
+        MapMessage::Take(n) => MapMessage::Take(*n),
+        MapMessage::Drop(n) => MapMessage::Drop(*n),
+    }
+}
+
+fn encode_note(n: &Note, big: bool) -> DownlinkNotification<Bytes> {
     match n {
         Note::Linked => DownlinkNotification::Linked,
         Note::Synced => DownlinkNotification::Synced,
         Note::Unlinked => DownlinkNotification::Unlinked,
         Note::Map(m) => {
             let mut buf = BytesMut::new();
-            MapMessageEncoder::default().encode(m.clone(), &mut buf).expect("encode map message");
+            MapMessageEncoder::default().encode(wire_msg(m, big), &mut buf).expect("encode map message");
             DownlinkNotification::Event { body: buf.freeze() }
         }
-        Note::Val(v) => DownlinkNotification::Event { body: Bytes::from(v.to_string().into_bytes()) },
+        // a Recon string literal (digits, `_`, `x` only: nothing to escape)
+        Note::Val(v) => DownlinkNotification::Event { body: Bytes::from(format!("\"{}\"", wire(*v, big)).into_bytes()) },
         // an event frame whose body is not a value of the expected type
         Note::Bad => DownlinkNotification::Event { body: Bytes::from_static(b"@@@ )(") },
     }
@@ -174,12 +232,13 @@ fn parse_op(op: &str, is_map: bool) -> Parsed {
 // ------------------------------------------------------------------------------------------------ client engine
 
 enum ClientWrites {
-    Map(mpsc::Sender<MapOperation<i32, i32>>),
-    Val(mpsc::Sender<ValueDownlinkSet<i32>>),
+    Map(mpsc::Sender<MapOperation<i32, V>>),
+    Val(mpsc::Sender<ValueDownlinkSet<V>>),
 }
 
 struct Client {
     is_map: bool,
+    big: bool,
     input: Option<FramedWrite<ByteWriter, DownlinkNotificationEncoder>>,
     /// `None` once the handle has been dropped
     writes: Option<ClientWrites>,
@@ -206,38 +265,39 @@ async fn settle() {
 }
 
 impl Client {
-    fn new(is_map: bool, ews: bool, tou: bool) -> Client {
+    fn new(is_map: bool, ews: bool, tou: bool, big: bool) -> Client {
         let log: Log = Default::default();
-        let (in_tx, in_rx) = byte_channel(BUF);
-        let (out_tx, out_rx) = byte_channel(BUF);
+        let chan = if big { SMALL_CHANNEL } else { BUF };
+        let (in_tx, in_rx) = byte_channel(chan);
+        let (out_tx, out_rx) = byte_channel(chan);
         let out = drain(out_rx);
         let config = DownlinkConfig { events_when_not_synced: ews, terminate_on_unlinked: tou, buffer_size: BUF };
         let addr = Address::new(None, Text::new("/node"), Text::new("lane"));
         let (l1, l2, l3, l4, l5, l6) = (log.clone(), log.clone(), log.clone(), log.clone(), log.clone(), log.clone());
         let (writes, fut) = if is_map {
-            let (tx, rx) = mpsc::channel::<MapOperation<i32, i32>>(64);
-            let model = map_downlink::<i32, i32>(rx).with_lifecycle(move |lc| {
+            let (tx, rx) = mpsc::channel::<MapOperation<i32, V>>(64);
+            let model = map_downlink::<i32, V>(rx).with_lifecycle(move |lc| {
                 let (l1, l2, l3, l4, l5, l6) = (l1.clone(), l2.clone(), l3.clone(), l4.clone(), l5.clone(), l6.clone());
                 lc.on_linked_blocking(move || push(&l1, "on_linked".into()))
-                    .on_synced_blocking(move |m: &BTreeMap<i32, i32>| push(&l2, format!("on_synced {}", show_map(m))))
-                    .on_update_blocking(move |k: i32, m: &BTreeMap<i32, i32>, old: Option<i32>, new: &i32| {
-                        push(&l3, format!("on_update {} {} {} {}", k, show_opt(old.as_ref()), new, show_map(m)))
+                    .on_synced_blocking(move |m: &BTreeMap<i32, V>| push(&l2, format!("on_synced {}", show_map(m))))
+                    .on_update_blocking(move |k: i32, m: &BTreeMap<i32, V>, old: Option<V>, new: &V| {
+                        push(&l3, format!("on_update {} {} {} {}", k, show_opt(old.as_ref()), show_val(new), show_map(m)))
                     })
-                    .on_removed_blocking(move |k: i32, m: &BTreeMap<i32, i32>, old: i32| {
-                        push(&l4, format!("on_remove {} {} {}", k, old, show_map(m)))
+                    .on_removed_blocking(move |k: i32, m: &BTreeMap<i32, V>, old: V| {
+                        push(&l4, format!("on_remove {} {} {}", k, show_val(&old), show_map(m)))
                     })
-                    .on_clear_blocking(move |m: BTreeMap<i32, i32>| push(&l5, format!("on_clear {}", show_map(&m))))
+                    .on_clear_blocking(move |m: BTreeMap<i32, V>| push(&l5, format!("on_clear {}", show_map(&m))))
                     .on_unlink_blocking(move || push(&l6, "on_unlinked".into()))
             });
             (ClientWrites::Map(tx), DownlinkTask::new(model).run(addr, config, in_rx, out_tx))
         } else {
-            let (tx, rx) = mpsc::channel::<ValueDownlinkSet<i32>>(64);
-            let model = value_downlink::<i32>(rx).with_lifecycle(move |lc| {
+            let (tx, rx) = mpsc::channel::<ValueDownlinkSet<V>>(64);
+            let model = value_downlink::<V>(rx).with_lifecycle(move |lc| {
                 let (l1, l2, l3, l4, l5) = (l1.clone(), l2.clone(), l3.clone(), l4.clone(), l5.clone());
                 lc.on_linked_blocking(move || push(&l1, "on_linked".into()))
-                    .on_synced_blocking(move |v: &i32| push(&l2, format!("on_synced {}", v)))
-                    .on_event_blocking(move |v: &i32| push(&l3, format!("on_event {}", v)))
-                    .on_set_blocking(move |old: Option<&i32>, v: &i32| push(&l4, format!("on_set {} {}", show_opt(old), v)))
+                    .on_synced_blocking(move |v: &V| push(&l2, format!("on_synced {}", show_val(v))))
+                    .on_event_blocking(move |v: &V| push(&l3, format!("on_event {}", show_val(v))))
+                    .on_set_blocking(move |old: Option<&V>, v: &V| push(&l4, format!("on_set {} {}", show_opt(old), show_val(v))))
                     .on_unlinked_blocking(move || push(&l5, "on_unlinked".into()))
             });
             (ClientWrites::Val(tx), DownlinkTask::new(model).run(addr, config, in_rx, out_tx))
@@ -245,6 +305,7 @@ impl Client {
         let task = tokio::spawn(fut);
         Client {
             is_map,
+            big,
             input: Some(FramedWrite::new(in_tx, DownlinkNotificationEncoder)),
             writes: Some(writes),
             out,
@@ -286,7 +347,7 @@ impl Client {
         match parsed {
             Parsed::Note(n) => {
                 if let Some(w) = self.input.as_mut() {
-                    let _ = w.send(encode_note(&n)).await;
+                    let _ = w.send(encode_note(&n, self.big)).await;
                 }
             }
             Parsed::Eof => {
@@ -297,7 +358,7 @@ impl Client {
             // `try_send`: a task in `Mode::Read` never empties the channel
             Parsed::Write(w) => match (self.writes.as_ref().unwrap(), w) {
                 (ClientWrites::Map(tx), Write::Upd(k, v)) => {
-                    let _ = tx.try_send(MapOperation::Update { key: k, value: v });
+                    let _ = tx.try_send(MapOperation::Update { key: k, value: wire(v, self.big) });
                 }
                 (ClientWrites::Map(tx), Write::Rem(k)) => {
                     let _ = tx.try_send(MapOperation::Remove { key: k });
@@ -306,7 +367,7 @@ impl Client {
                     let _ = tx.try_send(MapOperation::Clear);
                 }
                 (ClientWrites::Val(tx), Write::Set(v)) => {
-                    let _ = tx.try_send(ValueDownlinkSet { to: v });
+                    let _ = tx.try_send(ValueDownlinkSet { to: wire(v, self.big) });
                 }
                 _ => return "bad-op".into(),
             },
@@ -321,6 +382,7 @@ impl Client {
 // ------------------------------------------------------------------------------------------------ hosted engine
 
 struct FakeAgent;
+impl AgentDescription for FakeAgent {}
 
 struct Lc {
     log: Log,
@@ -350,47 +412,68 @@ impl OnFailed<FakeAgent> for Lc {
         eff(&self.log, "on_failed".into())
     }
 }
-impl OnSynced<HashMap<i32, i32>, FakeAgent> for Lc {
+impl OnSynced<HashMap<i32, V>, FakeAgent> for Lc {
     type OnSyncedHandler<'a> = H<'a> where Self: 'a;
-    fn on_synced<'a>(&'a self, value: &HashMap<i32, i32>) -> H<'a> {
+    fn on_synced<'a>(&'a self, value: &HashMap<i32, V>) -> H<'a> {
         eff(&self.log, format!("on_synced {}", show_map(value)))
     }
 }
-impl OnDownlinkUpdate<i32, i32, HashMap<i32, i32>, FakeAgent> for Lc {
+impl OnDownlinkUpdate<i32, V, HashMap<i32, V>, FakeAgent> for Lc {
     type OnUpdateHandler<'a> = H<'a> where Self: 'a;
-    fn on_update<'a>(&'a self, key: i32, map: &HashMap<i32, i32>, previous: Option<i32>, new_value: &i32) -> H<'a> {
-        eff(&self.log, format!("on_update {} {} {} {}", key, show_opt(previous.as_ref()), new_value, show_map(map)))
+    fn on_update<'a>(&'a self, key: i32, map: &HashMap<i32, V>, previous: Option<V>, new_value: &V) -> H<'a> {
+        eff(&self.log, fmt_update(key, map, previous.as_ref(), new_value))
     }
 }
-impl OnDownlinkRemove<i32, i32, HashMap<i32, i32>, FakeAgent> for Lc {
+impl OnDownlinkRemove<i32, V, HashMap<i32, V>, FakeAgent> for Lc {
     type OnRemoveHandler<'a> = H<'a> where Self: 'a;
-    fn on_remove<'a>(&'a self, key: i32, map: &HashMap<i32, i32>, removed: i32) -> H<'a> {
-        eff(&self.log, format!("on_remove {} {} {}", key, removed, show_map(map)))
+    fn on_remove<'a>(&'a self, key: i32, map: &HashMap<i32, V>, removed: V) -> H<'a> {
+        eff(&self.log, fmt_remove(key, map, &removed))
     }
 }
-impl OnDownlinkClear<HashMap<i32, i32>, FakeAgent> for Lc {
+impl OnDownlinkClear<HashMap<i32, V>, FakeAgent> for Lc {
     type OnClearHandler<'a> = H<'a> where Self: 'a;
-    fn on_clear(&self, map: HashMap<i32, i32>) -> H<'_> {
+    fn on_clear(&self, map: HashMap<i32, V>) -> H<'_> {
         eff(&self.log, format!("on_clear {}", show_map(&map)))
     }
 }
-impl OnSynced<i32, FakeAgent> for Lc {
+impl OnSynced<V, FakeAgent> for Lc {
     type OnSyncedHandler<'a> = H<'a> where Self: 'a;
-    fn on_synced<'a>(&'a self, value: &i32) -> H<'a> {
-        eff(&self.log, format!("on_synced {}", value))
+    fn on_synced<'a>(&'a self, value: &V) -> H<'a> {
+        eff(&self.log, format!("on_synced {}", show_val(value)))
     }
 }
-impl OnDownlinkEvent<i32, FakeAgent> for Lc {
+impl OnDownlinkEvent<V, FakeAgent> for Lc {
     type OnEventHandler<'a> = H<'a> where Self: 'a;
-    fn on_event(&self, value: &i32) -> H<'_> {
-        eff(&self.log, format!("on_event {}", value))
+    fn on_event(&self, value: &V) -> H<'_> {
+        eff(&self.log, format!("on_event {}", show_val(value)))
     }
 }
-impl OnDownlinkSet<i32, FakeAgent> for Lc {
+impl OnDownlinkSet<V, FakeAgent> for Lc {
     type OnSetHandler<'a> = H<'a> where Self: 'a;
-    fn on_set<'a>(&'a self, previous: Option<i32>, new_value: &i32) -> H<'a> {
-        eff(&self.log, format!("on_set {} {}", show_opt(previous.as_ref()), new_value))
+    fn on_set<'a>(&'a self, previous: Option<V>, new_value: &V) -> H<'a> {
+        eff(&self.log, format!("on_set {} {}", show_opt(previous.as_ref()), show_val(new_value)))
     }
+}
+// event downlinks
+impl OnSynced<(), FakeAgent> for Lc {
+    type OnSyncedHandler<'a> = H<'a> where Self: 'a;
+    fn on_synced<'a>(&'a self, _value: &()) -> H<'a> {
+        eff(&self.log, "on_synced".into())
+    }
+}
+impl OnConsumeEvent<V, FakeAgent> for Lc {
+    type OnEventHandler<'a> = H<'a> where Self: 'a;
+    fn on_event(&self, value: V) -> H<'_> {
+        eff(&self.log, format!("on_event {}", show_val(&value)))
+    }
+}
+
+fn fmt_update(key: i32, map: &HashMap<i32, V>, previous: Option<&V>, new_value: &V) -> String {
+    format!("on_update {} {} {} {}", key, show_opt(previous), show_val(new_value), show_map(map))
+}
+
+fn fmt_remove(key: i32, map: &HashMap<i32, V>, removed: &V) -> String {
+    format!("on_remove {} {} {}", key, show_val(removed), show_map(map))
 }
 
 struct NoSpawn;
@@ -451,14 +534,359 @@ fn run_action<Hd: HandlerAction<FakeAgent>>(mut h: Hd, links: &dyn LinkSpawner<F
 }
 
 enum HostedWrites {
-    Map(MapDownlinkHandle<i32, i32>),
-    Val(ValueDownlinkHandle<i32>),
+    Map(MapDownlinkHandle<i32, V>),
+    Val(ValueDownlinkHandle<V>),
+    Evt(EventDownlinkHandle),
 }
 
+#[derive(Clone, Copy, PartialEq, Eq)]
+enum Kind {
+    Map,
+    Value,
+    Event,
+}
+
+// ---- the public builders (`HandlerContext::{map,value,event}_downlink_builder`)
+//
+// path 0: `Open*DownlinkAction::new` with our own lifecycle type (below the builders)
+//      1: stateless builder, every setter, declaration order
+//      2: stateless builder, every setter, reverse order
+//      3: `with_state` / `with_shared_state` first, then every stateful setter
+//      4: the same, setters in reverse order
+//      5: every stateless setter, then `with_state(())` (the handlers set before must survive the conversion)
+//      6: mixed: some setters before the conversion, the others (stateful) after it
+const PATHS: u64 = 7;
+
+type HS = LocalBoxEventHandler<'static, FakeAgent>;
+type Ctx = HandlerContext<FakeAgent>;
+type M = HashMap<i32, V>;
+
+fn eff_s(log: &Log, s: String) -> HS {
+    let log = log.clone();
+    SideEffect::from(move || push(&log, s)).boxed_local()
+}
+
+// stateless handlers (closures owning a clone of the log)
+fn l0(log: &Log, name: &'static str) -> impl Fn(Ctx) -> HS + Send + 'static {
+    let log = log.clone();
+    move |_| eff_s(&log, name.into())
+}
+fn l_msynced(log: &Log) -> impl Fn(Ctx, &M) -> HS + Send + 'static {
+    let log = log.clone();
+    move |_, m| eff_s(&log, format!("on_synced {}", show_map(m)))
+}
+fn l_update(log: &Log) -> impl Fn(Ctx, i32, &M, Option<V>, &V) -> HS + Send + 'static {
+    let log = log.clone();
+    move |_, k, m, old, new| eff_s(&log, fmt_update(k, m, old.as_ref(), new))
+}
+fn l_remove(log: &Log) -> impl Fn(Ctx, i32, &M, V) -> HS + Send + 'static {
+    let log = log.clone();
+    move |_, k, m, old| eff_s(&log, fmt_remove(k, m, &old))
+}
+fn l_clear(log: &Log) -> impl Fn(Ctx, M) -> HS + Send + 'static {
+    let log = log.clone();
+    move |_, m| eff_s(&log, format!("on_clear {}", show_map(&m)))
+}
+fn l_vsynced(log: &Log) -> impl Fn(Ctx, &V) -> HS + Send + 'static {
+    let log = log.clone();
+    move |_, v| eff_s(&log, format!("on_synced {}", show_val(v)))
+}
+fn l_event(log: &Log) -> impl Fn(Ctx, &V) -> HS + Send + 'static {
+    let log = log.clone();
+    move |_, v| eff_s(&log, format!("on_event {}", show_val(v)))
+}
+fn l_set(log: &Log) -> impl Fn(Ctx, Option<V>, &V) -> HS + Send + 'static {
+    let log = log.clone();
+    move |_, old, v| eff_s(&log, format!("on_set {} {}", show_opt(old.as_ref()), show_val(v)))
+}
+fn l_esynced(log: &Log) -> impl Fn(Ctx, &()) -> HS + Send + 'static {
+    let log = log.clone();
+    move |_, _| eff_s(&log, "on_synced".into())
+}
+fn l_eevent(log: &Log) -> impl Fn(Ctx, V) -> HS + Send + 'static {
+    let log = log.clone();
+    move |_, v| eff_s(&log, format!("on_event {}", show_val(&v)))
+}
+
+// stateful handlers (the shared state is the log)
+fn s_linked<'a>(log: &'a Log, _: Ctx) -> H<'a> {
+    eff(log, "on_linked".into())
+}
+fn s_unlinked<'a>(log: &'a Log, _: Ctx) -> H<'a> {
+    eff(log, "on_unlinked".into())
+}
+fn s_failed<'a>(log: &'a Log, _: Ctx) -> H<'a> {
+    eff(log, "on_failed".into())
+}
+fn s_msynced<'a>(log: &'a Log, _: Ctx, m: &M) -> H<'a> {
+    eff(log, format!("on_synced {}", show_map(m)))
+}
+fn s_update<'a>(log: &'a Log, _: Ctx, m: &M, k: i32, old: Option<V>, new: &V) -> H<'a> {
+    eff(log, fmt_update(k, m, old.as_ref(), new))
+}
+fn s_remove<'a>(log: &'a Log, _: Ctx, m: &M, k: i32, old: V) -> H<'a> {
+    eff(log, fmt_remove(k, m, &old))
+}
+fn s_clear<'a>(log: &'a Log, _: Ctx, m: M) -> H<'a> {
+    eff(log, format!("on_clear {}", show_map(&m)))
+}
+fn s_vsynced<'a>(log: &'a Log, _: Ctx, v: &V) -> H<'a> {
+    eff(log, format!("on_synced {}", show_val(v)))
+}
+fn s_event<'a>(log: &'a Log, _: Ctx, v: &V) -> H<'a> {
+    eff(log, format!("on_event {}", show_val(v)))
+}
+fn s_set<'a>(log: &'a Log, _: Ctx, v: &V, old: Option<V>) -> H<'a> {
+    eff(log, format!("on_set {} {}", show_opt(old.as_ref()), show_val(v)))
+}
+fn s_esynced<'a>(log: &'a Log, _: Ctx, _: &()) -> H<'a> {
+    eff(log, "on_synced".into())
+}
+fn s_eevent<'a>(log: &'a Log, _: Ctx, v: V) -> H<'a> {
+    eff(log, format!("on_event {}", show_val(&v)))
+}
+
+fn open_map(path: u64, ews: bool, tou: bool, log: &Log, cap: &Capture) -> Option<MapDownlinkHandle<i32, V>> {
+    let config = MapDownlinkConfig { events_when_not_synced: ews, terminate_on_unlinked: tou };
+    let ctx: Ctx = Default::default();
+    let b = || ctx.map_downlink_builder::<i32, V>(None, "/node", "lane", config);
+    match path {
+        0 => {
+            let addr: Address<Text> = Address::new(None, Text::new("/node"), Text::new("lane"));
+            run_action(OpenMapDownlinkAction::<i32, V, M, Lc>::new(addr, Lc { log: log.clone() }, config), cap)
+        }
+        1 => run_action(
+            b().on_linked(l0(log, "on_linked"))
+                .on_synced(l_msynced(log))
+                .on_unlinked(l0(log, "on_unlinked"))
+                .on_failed(l0(log, "on_failed"))
+                .on_update(l_update(log))
+                .on_remove(l_remove(log))
+                .on_clear(l_clear(log))
+                .done(),
+            cap,
+        ),
+        2 => run_action(
+            b().on_clear(l_clear(log))
+                .on_remove(l_remove(log))
+                .on_update(l_update(log))
+                .on_failed(l0(log, "on_failed"))
+                .on_unlinked(l0(log, "on_unlinked"))
+                .on_synced(l_msynced(log))
+                .on_linked(l0(log, "on_linked"))
+                .done(),
+            cap,
+        ),
+        3 => run_action(
+            b().with_state(log.clone())
+                .on_linked(s_linked)
+                .on_synced(s_msynced)
+                .on_unlinked(s_unlinked)
+                .on_failed(s_failed)
+                .on_update(s_update)
+                .on_remove(s_remove)
+                .on_clear(s_clear)
+                .done(),
+            cap,
+        ),
+        4 => run_action(
+            b().with_state(log.clone())
+                .on_clear(s_clear)
+                .on_remove(s_remove)
+                .on_update(s_update)
+                .on_failed(s_failed)
+                .on_unlinked(s_unlinked)
+                .on_synced(s_msynced)
+                .on_linked(s_linked)
+                .done(),
+            cap,
+        ),
+        5 => run_action(
+            b().on_linked(l0(log, "on_linked"))
+                .on_synced(l_msynced(log))
+                .on_unlinked(l0(log, "on_unlinked"))
+                .on_failed(l0(log, "on_failed"))
+                .on_update(l_update(log))
+                .on_remove(l_remove(log))
+                .on_clear(l_clear(log))
+                .with_state(())
+                .done(),
+            cap,
+        ),
+        6 => run_action(
+            b().on_update(l_update(log))
+                .on_linked(l0(log, "on_linked"))
+                .on_clear(l_clear(log))
+                .with_state(log.clone())
+                .on_remove(s_remove)
+                .on_synced(s_msynced)
+                .on_failed(s_failed)
+                .on_unlinked(s_unlinked)
+                .done(),
+            cap,
+        ),
+        _ => None,
+    }
+}
+
+fn open_value(path: u64, ews: bool, tou: bool, log: &Log, cap: &Capture) -> Option<ValueDownlinkHandle<V>> {
+    let config = SimpleDownlinkConfig { events_when_not_synced: ews, terminate_on_unlinked: tou };
+    let ctx: Ctx = Default::default();
+    let b = || ctx.value_downlink_builder::<V>(None, "/node", "lane", config);
+    match path {
+        0 => {
+            let addr: Address<Text> = Address::new(None, Text::new("/node"), Text::new("lane"));
+            run_action(OpenValueDownlinkAction::<V, Lc>::new(addr, Lc { log: log.clone() }, config), cap)
+        }
+        1 => run_action(
+            b().on_linked(l0(log, "on_linked"))
+                .on_synced(l_vsynced(log))
+                .on_unlinked(l0(log, "on_unlinked"))
+                .on_failed(l0(log, "on_failed"))
+                .on_event(l_event(log))
+                .on_set(l_set(log))
+                .done(),
+            cap,
+        ),
+        2 => run_action(
+            b().on_set(l_set(log))
+                .on_event(l_event(log))
+                .on_failed(l0(log, "on_failed"))
+                .on_unlinked(l0(log, "on_unlinked"))
+                .on_synced(l_vsynced(log))
+                .on_linked(l0(log, "on_linked"))
+                .done(),
+            cap,
+        ),
+        3 => run_action(
+            b().with_shared_state(log.clone())
+                .on_linked(s_linked)
+                .on_synced(s_vsynced)
+                .on_unlinked(s_unlinked)
+                .on_failed(s_failed)
+                .on_event(s_event)
+                .on_set(s_set)
+                .done(),
+            cap,
+        ),
+        4 => run_action(
+            b().with_shared_state(log.clone())
+                .on_set(s_set)
+                .on_event(s_event)
+                .on_failed(s_failed)
+                .on_unlinked(s_unlinked)
+                .on_synced(s_vsynced)
+                .on_linked(s_linked)
+                .done(),
+            cap,
+        ),
+        5 => run_action(
+            b().on_linked(l0(log, "on_linked"))
+                .on_synced(l_vsynced(log))
+                .on_unlinked(l0(log, "on_unlinked"))
+                .on_failed(l0(log, "on_failed"))
+                .on_event(l_event(log))
+                .on_set(l_set(log))
+                .with_shared_state(())
+                .done(),
+            cap,
+        ),
+        6 => run_action(
+            b().on_event(l_event(log))
+                .on_linked(l0(log, "on_linked"))
+                .on_failed(l0(log, "on_failed"))
+                .with_shared_state(log.clone())
+                .on_set(s_set)
+                .on_synced(s_vsynced)
+                .on_unlinked(s_unlinked)
+                .done(),
+            cap,
+        ),
+        _ => None,
+    }
+}
+
+fn open_event(path: u64, ews: bool, tou: bool, log: &Log, cap: &Capture) -> Option<EventDownlinkHandle> {
+    let config = SimpleDownlinkConfig { events_when_not_synced: ews, terminate_on_unlinked: tou };
+    let ctx: Ctx = Default::default();
+    let b = || ctx.event_downlink_builder::<V>(None, "/node", "lane", config);
+    match path {
+        0 => {
+            let addr: Address<Text> = Address::new(None, Text::new("/node"), Text::new("lane"));
+            run_action(OpenEventDownlinkAction::<V, Lc>::new(addr, Lc { log: log.clone() }, config, false), cap)
+        }
+        1 => run_action(
+            b().on_linked(l0(log, "on_linked"))
+                .on_synced(l_esynced(log))
+                .on_unlinked(l0(log, "on_unlinked"))
+                .on_failed(l0(log, "on_failed"))
+                .on_event(l_eevent(log))
+                .done(),
+            cap,
+        ),
+        2 => run_action(
+            b().on_event(l_eevent(log))
+                .on_failed(l0(log, "on_failed"))
+                .on_unlinked(l0(log, "on_unlinked"))
+                .on_synced(l_esynced(log))
+                .on_linked(l0(log, "on_linked"))
+                .done(),
+            cap,
+        ),
+        3 => run_action(
+            b().with_shared_state(log.clone())
+                .on_linked(s_linked)
+                .on_synced(s_esynced)
+                .on_unlinked(s_unlinked)
+                .on_failed(s_failed)
+                .on_event(s_eevent)
+                .done(),
+            cap,
+        ),
+        4 => run_action(
+            b().with_shared_state(log.clone())
+                .on_event(s_eevent)
+                .on_failed(s_failed)
+                .on_unlinked(s_unlinked)
+                .on_synced(s_esynced)
+                .on_linked(s_linked)
+                .done(),
+            cap,
+        ),
+        5 => run_action(
+            b().on_linked(l0(log, "on_linked"))
+                .on_synced(l_esynced(log))
+                .on_unlinked(l0(log, "on_unlinked"))
+                .on_failed(l0(log, "on_failed"))
+                .on_event(l_eevent(log))
+                .with_shared_state(())
+                .done(),
+            cap,
+        ),
+        6 => run_action(
+            b().on_event(l_eevent(log))
+                .on_linked(l0(log, "on_linked"))
+                .with_shared_state(log.clone())
+                .on_synced(s_esynced)
+                .on_failed(s_failed)
+                .on_unlinked(s_unlinked)
+                .done(),
+            cap,
+        ),
+        _ => None,
+    }
+}
+
+type NoteWriter = FramedWrite<ByteWriter, DownlinkNotificationEncoder>;
+
 struct Hosted {
-    is_map: bool,
+    kind: Kind,
+    big: bool,
     chan: BoxDownlinkChannel<FakeAgent>,
-    input: Option<FramedWrite<ByteWriter, DownlinkNotificationEncoder>>,
+    input: Option<NoteWriter>,
+    /// a notification being written (a large frame does not fit the channel: the write completes only while the channel
+    /// is being polled)
+    sending: Option<JoinHandle<NoteWriter>>,
     /// `None` once the handle has been dropped
     writes: Option<HostedWrites>,
     log: Log,
@@ -466,33 +894,30 @@ struct Hosted {
 }
 
 impl Hosted {
-    fn new(is_map: bool, ews: bool, tou: bool) -> Hosted {
+    fn new(kind: Kind, ews: bool, tou: bool, path: u64, big: bool) -> Option<Hosted> {
         let log: Log = Default::default();
-        let lc = Lc { log: log.clone() };
-        let addr: Address<Text> = Address::new(None, Text::new("/node"), Text::new("lane"));
         let cap = Capture::default();
-        let writes = if is_map {
-            let config = MapDownlinkConfig { events_when_not_synced: ews, terminate_on_unlinked: tou };
-            let act = OpenMapDownlinkAction::<i32, i32, HashMap<i32, i32>, Lc>::new(addr, lc, config);
-            HostedWrites::Map(run_action(act, &cap).expect("open map downlink"))
-        } else {
-            let config = SimpleDownlinkConfig { events_when_not_synced: ews, terminate_on_unlinked: tou };
-            let act = OpenValueDownlinkAction::<i32, Lc>::new(addr, lc, config);
-            HostedWrites::Val(run_action(act, &cap).expect("open value downlink"))
+        let writes = match kind {
+            Kind::Map => HostedWrites::Map(open_map(path, ews, tou, &log, &cap)?),
+            Kind::Value => HostedWrites::Val(open_value(path, ews, tou, &log, &cap)?),
+            Kind::Event => HostedWrites::Evt(open_event(path, ews, tou, &log, &cap)?),
         };
         let fac = cap.0.borrow_mut().take().expect("factory captured");
-        let (in_tx, in_rx) = byte_channel(BUF);
-        let (out_tx, out_rx) = byte_channel(BUF);
+        let size = if big { SMALL_CHANNEL } else { BUF };
+        let (in_tx, in_rx) = byte_channel(size);
+        let (out_tx, out_rx) = byte_channel(size);
         drain(out_rx);
         let chan = fac.create_box(&FakeAgent, out_tx, in_rx);
-        Hosted {
-            is_map,
+        Some(Hosted {
+            kind,
+            big,
             chan,
             input: Some(FramedWrite::new(in_tx, DownlinkNotificationEncoder)),
+            sending: None,
             writes: Some(writes),
             log,
             ended: false,
-        }
+        })
     }
 
     fn run_next_event(&mut self) {
@@ -528,6 +953,17 @@ impl Hosted {
                 }
             }
         }
+        if let Some(jh) = self.sending.take() {
+            if self.ended {
+                jh.abort();
+            } else {
+                // idle: the frame has been taken (or the channel will never take it)
+                match tokio::time::timeout(Duration::from_millis(5), jh).await {
+                    Ok(Ok(w)) => self.input = Some(w),
+                    _ => self.input = None,
+                }
+            }
+        }
         if self.ended {
             self.input = None;
         }
@@ -535,9 +971,10 @@ impl Hosted {
     }
 
     async fn exec(&mut self, op: &str) -> String {
-        let parsed = parse_op(op, self.is_map);
+        let parsed = parse_op(op, self.kind == Kind::Map);
         match parsed {
             Parsed::Invalid | Parsed::CloseOut => return "bad-op".into(),
+            Parsed::Write(_) if self.kind == Kind::Event => return "bad-op".into(),
             Parsed::Reconnect => {
                 if !self.ended {
                     return "bad-op".into();
@@ -545,8 +982,9 @@ impl Hosted {
                 if !self.chan.can_restart() {
                     return "refused".into();
                 }
-                let (in_tx, in_rx) = byte_channel(BUF);
-                let (out_tx, out_rx) = byte_channel(BUF);
+                let size = if self.big { SMALL_CHANNEL } else { BUF };
+                let (in_tx, in_rx) = byte_channel(size);
+                let (out_tx, out_rx) = byte_channel(size);
                 drain(out_rx);
                 self.chan.connect(&FakeAgent, out_tx, in_rx);
                 self.input = Some(FramedWrite::new(in_tx, DownlinkNotificationEncoder));
@@ -560,8 +998,12 @@ impl Hosted {
         }
         match parsed {
             Parsed::Note(n) => {
-                if let Some(w) = self.input.as_mut() {
-                    let _ = w.send(encode_note(&n)).await;
+                if let Some(mut w) = self.input.take() {
+                    let frame = encode_note(&n, self.big);
+                    self.sending = Some(tokio::spawn(async move {
+                        let _ = w.send(frame).await;
+                        w
+                    }));
                 }
             }
             Parsed::Eof => self.input = None,
@@ -569,12 +1011,13 @@ impl Hosted {
             Parsed::Stop => match self.writes.as_mut() {
                 Some(HostedWrites::Map(h)) => h.stop(),
                 Some(HostedWrites::Val(h)) => h.stop(),
+                Some(HostedWrites::Evt(h)) => h.stop(),
                 None => {} // no handle left to call it on
             },
             Parsed::Write(_) if self.writes.is_none() => {}
             Parsed::Write(w) => match (self.writes.as_mut().unwrap(), w) {
                 (HostedWrites::Map(h), Write::Upd(k, v)) => {
-                    let _ = h.update(k, v);
+                    let _ = h.update(k, wire(v, self.big));
                 }
                 (HostedWrites::Map(h), Write::Rem(k)) => {
                     let _ = h.remove(k);
@@ -583,7 +1026,7 @@ impl Hosted {
                     let _ = h.clear();
                 }
                 (HostedWrites::Val(h), Write::Set(v)) => {
-                    let _ = h.set(v);
+                    let _ = h.set(wire(v, self.big));
                 }
                 _ => return "bad-op".into(),
             },
@@ -609,10 +1052,11 @@ enum Eng {
 fn make(op: &str) -> Option<Eng> {
     let p: Vec<&str> = op.split_whitespace().collect();
     match p.as_slice() {
-        ["new", imp, kind, ews, tou] => {
-            let is_map = match *kind {
-                "map" => true,
-                "value" => false,
+        ["new", imp, kind, ews, tou, opts @ ..] => {
+            let kind = match *kind {
+                "map" => Kind::Map,
+                "value" => Kind::Value,
+                "event" => Kind::Event,
                 _ => return None,
             };
             let b = |s: &str| match s {
@@ -621,9 +1065,20 @@ fn make(op: &str) -> Option<Eng> {
                 _ => None,
             };
             let (ews, tou) = (b(ews)?, b(tou)?);
+            let mut path = 0u64;
+            let mut big = false;
+            for o in opts {
+                if *o == "big" {
+                    big = true;
+                } else if let Some(n) = o.strip_prefix("path=") {
+                    path = n.parse().ok()?;
+                } else {
+                    return None;
+                }
+            }
             match *imp {
-                "client" => Some(Eng::C(Client::new(is_map, ews, tou))),
-                "hosted" => Some(Eng::H(Hosted::new(is_map, ews, tou))),
+                "client" if kind != Kind::Event => Some(Eng::C(Client::new(kind == Kind::Map, ews, tou, big))),
+                "hosted" => Hosted::new(kind, ews, tou, path, big).map(Eng::H),
                 _ => None,
             }
         }
@@ -798,18 +1253,35 @@ fn gen_case(rng: &mut Rng, imp: &str) -> Vec<String> {
         let at = rng.below(ops.len() as u64 + 1) as usize;
         ops.insert(at, "stop".into());
     }
+    // construction path of a hosted downlink (0 = below the builders, 1..6 = through the public builders), an event
+    // downlink instead of a value downlink (hosted only), large values over small channels: the same draws for both
+    // implementations, so that the same seed still gives the same script to both
+    let path = rng.below(PATHS);
+    let event = !is_map && rng.chance(1, 4);
+    let big = rng.chance(1, 40);
     if imp == "client" {
         ops.retain(|o| o != "reconnect" && o != "stop");
     } else {
         ops.retain(|o| o != "close-out");
     }
     let mut all = vec![format!(
-        "new {} {} {} {}",
+        "new {} {} {} {}{}{}",
         imp,
-        if is_map { "map" } else { "value" },
+        if is_map {
+            "map"
+        } else if event && imp == "hosted" {
+            "event"
+        } else {
+            "value"
+        },
         ews as u8,
-        tou as u8
+        tou as u8,
+        if imp == "hosted" { format!(" path={}", path) } else { String::new() },
+        if big { " big" } else { "" }
     )];
+    if event && imp == "hosted" {
+        ops.retain(|o| !o.starts_with("wset"));
+    }
     all.extend(ops);
     all
 }
@@ -820,7 +1292,9 @@ async fn enumerate(t: &mut Trace, imp: &str, kind: &str, alphabet: &[&str], dept
     for cfg in 0..4u8 {
         let mut idx = vec![0usize; depth];
         'outer: loop {
-            let mut ops = vec![format!("new {} {} {} {}", imp, kind, cfg & 1, (cfg >> 1) & 1)];
+            // hosted: the construction paths in rotation
+            let path = if imp == "hosted" { format!(" path={}", *count % PATHS) } else { String::new() };
+            let mut ops = vec![format!("new {} {} {} {}{}", imp, kind, cfg & 1, (cfg >> 1) & 1, path)];
             ops.extend(idx.iter().map(|&j| alphabet[j].to_string()));
             t.case(format!("exh {} #{}", imp, count));
             run_case(t, &ops).await;
@@ -851,6 +1325,10 @@ async fn exhaustive(t: &mut Trace, imp: &str, depth: usize) {
     enumerate(t, imp, "value", &value, depth, &mut count).await;
     let map_io = ["linked", "synced", "unlinked", "upd 1 10", "rem 1", "clr", "drop-handle", "wupd 2 20"];
     enumerate(t, imp, "map", &map_io, depth - 1, &mut count).await;
+    if imp == "hosted" {
+        let event = ["linked", "synced", "unlinked", "set 1", "drop-handle", "stop"];
+        enumerate(t, imp, "event", &event, depth - 1, &mut count).await;
+    }
 }
 
 fn main() {
